@@ -339,6 +339,11 @@ class ConventionalResponseHandler(MessageHandler, ResponseHandler):
             raise transport_errors.SmartProtocolError(
                 f"Unknown response status: {byte!r}"
             )
+        if self.args is not None:
+            # A status byte after the response args is the status of the body
+            # stream, even if no bytes part came first: the stream may fail
+            # (or end) before it yields its first chunk.
+            self._body_started = True
         if self._body_started:
             if self._body_stream_status is not None:
                 raise transport_errors.SmartProtocolError(
